@@ -95,6 +95,7 @@ type hC05Dup struct {
 	a, b string // text around the two definition names: a + n1 + mid + n2 + b
 	mid  string
 	dig  bool
+	seq  bool // numbered (unnamed) definitions: the first is 0, the second 0 (duplicate) or 1
 }
 
 var hC05Dups = []hC05Dup{
@@ -111,17 +112,20 @@ var hC05Dups = []hC05Dup{
 	{id: "label-inst", a: "define void @f() {\n", mid: ":\n\t%", b: " = add i32 1, 1\n\tret void\n}\n"},
 	{id: "param-inst", a: "define void @f(i32 %", mid: ") {\n\t%", b: " = add i32 1, 1\n\tret void\n}\n"},
 	{id: "inst-invoke", a: "declare i32 @g()\ndefine void @f() personality i8* null {\n\t%", mid: " = add i32 1, 1\n\t%", b: " = invoke i32 @g() to label %ok unwind label %lp\nok:\n\tret void\nlp:\n\t%l = landingpad i32 cleanup\n\tret void\n}\n"},
+	{id: "global-number", a: "@", mid: " = global i32 0\n@", b: " = global i32 1\n", dig: true, seq: true},
+	{id: "func-number", a: "declare void @", mid: "()\ndefine void @", b: "() {\n\tret void\n}\n", dig: true, seq: true},
+	{id: "local-number", a: "define i32 @f(i32 %x) {\nentry:\n\t%", mid: " = add i32 %x, 1\n\t%", b: " = add i32 %x, 2\n\tret i32 %x\n}\n", dig: true, seq: true},
 	{id: "global-alias", a: "@t = global i32 0\n@", mid: " = global i32 1\n@", b: " = alias i32, i32* @t\n"},
 	{id: "func-ifunc", a: "declare void ()* @r()\ndeclare void @", mid: "()\n@", b: " = ifunc void (), void ()* ()* @r\n"},
 }
 
-var hC05DupIDs = [...]string{"C05.global.duplicate-is-error", "C05.global-func.duplicate-is-error", "C05.type.duplicate-is-error", "C05.comdat.duplicate-is-error", "C05.local.duplicate-is-error", "C05.param.duplicate-is-error", "C05.label.duplicate-is-error", "C05.metadata.duplicate-is-error", "C05.param-label.duplicate-is-error", "C05.label-inst.duplicate-is-error", "C05.param-inst.duplicate-is-error", "C05.inst-invoke.duplicate-is-error", "C05.global-alias.duplicate-is-error", "C05.func-ifunc.duplicate-is-error"}
-var hC05DistinctIDs = [...]string{"C05.global.distinct-is-accepted", "C05.global-func.distinct-is-accepted", "C05.type.distinct-is-accepted", "C05.comdat.distinct-is-accepted", "C05.local.distinct-is-accepted", "C05.param.distinct-is-accepted", "C05.label.distinct-is-accepted", "C05.metadata.distinct-is-accepted", "C05.param-label.distinct-is-accepted", "C05.label-inst.distinct-is-accepted", "C05.param-inst.distinct-is-accepted", "C05.inst-invoke.distinct-is-accepted", "C05.global-alias.distinct-is-accepted", "C05.func-ifunc.distinct-is-accepted"}
+var hC05DupIDs = [...]string{"C05.global.duplicate-is-error", "C05.global-func.duplicate-is-error", "C05.type.duplicate-is-error", "C05.comdat.duplicate-is-error", "C05.local.duplicate-is-error", "C05.param.duplicate-is-error", "C05.label.duplicate-is-error", "C05.metadata.duplicate-is-error", "C05.param-label.duplicate-is-error", "C05.label-inst.duplicate-is-error", "C05.param-inst.duplicate-is-error", "C05.inst-invoke.duplicate-is-error", "C05.global-number.duplicate-is-error", "C05.func-number.duplicate-is-error", "C05.local-number.duplicate-is-error", "C05.global-alias.duplicate-is-error", "C05.func-ifunc.duplicate-is-error"}
+var hC05DistinctIDs = [...]string{"C05.global.distinct-is-accepted", "C05.global-func.distinct-is-accepted", "C05.type.distinct-is-accepted", "C05.comdat.distinct-is-accepted", "C05.local.distinct-is-accepted", "C05.param.distinct-is-accepted", "C05.label.distinct-is-accepted", "C05.metadata.distinct-is-accepted", "C05.param-label.distinct-is-accepted", "C05.label-inst.distinct-is-accepted", "C05.param-inst.distinct-is-accepted", "C05.inst-invoke.distinct-is-accepted", "C05.global-number.distinct-is-accepted", "C05.func-number.distinct-is-accepted", "C05.local-number.distinct-is-accepted", "C05.global-alias.distinct-is-accepted", "C05.func-ifunc.distinct-is-accepted"}
 
 // VfC05_Duplicate
 //
 //vf:unwind 300
-//vf:shards 14
+//vf:shards 16
 func VfC05_Duplicate() {
 	k := vfChoice("template", len(hC05Dups))
 	t := hC05Dups[k]
@@ -130,6 +134,9 @@ func VfC05_Duplicate() {
 		n1, n2 = hLetterIn("n1", '0', '3'), hLetterIn("n2", '0', '3')
 	} else {
 		n1, n2 = hLetterIn("n1", 'a', 'c'), hLetterIn("n2", 'a', 'c')
+	}
+	if t.seq {
+		vfAssume(vfAnd(n1[0] == '0', n2[0] <= '1'))
 	}
 	src := t.a + n1 + t.mid + n2 + t.b
 	m, err := ParseString("t.ll", src)
